@@ -212,3 +212,41 @@ PROPS = {
         thorough=dict(parts=[dict(world='c14', count=16000), dict(world='c03', count=6000)]),
     ),
 }
+
+
+def sweep_jobs(prop, sw, seed, runner):
+    """Fault enumeration for the thorough tier: sample `streams` seeds, learn each stream's length from a
+    baseline run, then enumerate every cut offset (x every fault kind) and, for C02, every two-way split."""
+    from sim.tape import mix
+    seeds = [mix(seed, prop, 'sweep', i) for i in range(sw['streams'])]
+    jobs = []
+    info = {'streams': 0, 'offsets': 0, 'splits': 0, 'lengths': []}
+    if prop == 'C02':
+        base = runner.run_batch(prop, sw['world'], 0, {'tier': 'thorough'}, jobs=[(sd, {'mode': 'cut', 'cut': 0, 'how': 'FIN'}) for sd in seeds])
+        for sd, r in zip(seeds, base):
+            n = (r.get('notes') or {}).get('stream_len') or 0
+            if r.get('error') or not n or n > 700:
+                continue
+            info['streams'] += 1
+            info['lengths'].append(n)
+            for k in range(0, n + 1):
+                for how in ('FIN', 'RST', 'STALL'):
+                    jobs.append((sd, {'mode': 'cut', 'cut': k, 'how': how}))
+                    info['offsets'] += 1
+            for sp in range(1, n):
+                jobs.append((sd, {'mode': 'seg', 'split': sp}))
+                info['splits'] += 1
+    elif prop == 'C13':
+        for drv in ('pipeline', 'synchronous'):
+            base = runner.run_batch(prop, sw['world'], 0, {'tier': 'thorough'}, jobs=[(sd, {'mode': drv, 'kind': 'NONE'}) for sd in seeds])
+            for sd, r in zip(seeds, base):
+                n = (r.get('notes') or {}).get('reply_len') or 0
+                if r.get('error') or not n or n > 1500:
+                    continue
+                info['streams'] += 1
+                info['lengths'].append(n)
+                for k in range(0, n + 1):
+                    for kind in ('FIN', 'RST', 'STALL'):
+                        jobs.append((sd, {'mode': drv, 'kind': kind, 'cut': k}))
+                        info['offsets'] += 1
+    return jobs, info
